@@ -13,6 +13,10 @@ map_grid             1-d / 2-d grids embedded in 3-d by a rigid motion: R orthog
                      centres have the same pairwise distances, face normals keep their Gram matrix
 tnp                  pp.TangentialNormalProjection: blocks orthogonal, |det| = 1 (+1 in 3-d), last row = n,
                      project_normal picks n, tangential + normal parts reassemble the identity
+tnp_history          one TangentialNormalProjection object and a generated sequence of 2-10 calls of
+                     project_tangential_normal / project_tangential / project_normal with num=None and num=1..num_vecs+2
+                     in random order with repetitions (both argument forms with the same block count forced in half of
+                     the cases); the independent per-block oracle after every call
 
 Tolerances (absolute, the matrices have entries of size 1): 1e-10 for orthogonality / determinant and
 for R n = +-ref on directions that are at an angle >= 1e-4 from the reference or exactly (anti)parallel;
@@ -40,11 +44,13 @@ RULE = (
     "det R = +1 (1e-10), R n = +-reference (1e-10; 1e-7 for nearly parallel directions), planar / collinear "
     "inputs get a constant off-coordinate, pairwise distances equal the exact integer distances of the "
     "construction (rtol 1e-9), rotation_matrix equals scipy's Rotation.from_rotvec; TangentialNormalProjection "
-    "blocks orthogonal, |det| = 1 (= +1 in 3-d), last row = unit normal, P_t^T P_t + P_n^T P_n = I. "
+    "blocks orthogonal, |det| = 1 (= +1 in 3-d), last row = unit normal, P_t^T P_t + P_n^T P_n = I; histories: one object, "
+    "2-10 calls of the three projection methods with num=None (block k <-> normal k) and num=1..num_vecs+2 (all blocks <-> "
+    "normal 0) in random order with repetitions, every returned matrix checked against the normals it must belong to. "
     "Non-trivial = everything except zero axis / zero angle rotations and 0-d / 3-d grids in map_grid; "
     "distinct = hash of spec."
 )
-BUDGET = {"quick": {"cases": 9000, "seconds": 40}, "thorough": {"cases": 500000, "seconds": 1100}}
+BUDGET = {"quick": {"cases": 10000, "seconds": 40}, "thorough": {"cases": 500000, "seconds": 1100}}
 TECHNIQUE = ("property-based testing (Hypothesis): algebraic invariants (orthogonality, determinant, isometry) "
              "against exact integer constructions, differential against scipy.spatial.transform.Rotation")
 LEVEL_TEXT = ("Exploration: thousands of generated directions, planar clouds, collinear sets and embedded grids "
@@ -56,7 +62,8 @@ LEVEL_TEXT = ("Exploration: thousands of generated directions, planar clouds, co
 LEVEL_NOTE = ("Tolerance 1e-10, relaxed to 1e-7 for directions within 1e-5 rad of the reference (arccos-based "
               "angle and the 1e-8 identity shortcut of rotation_matrix). The 2-d TangentialNormalProjection "
               "fixes the tangent to point in +x (code comment), so det = -1 for half of the normals; only "
-              "|det| = 1 is demanded there. Finds violations, does not prove absence.")
+              "|det| = 1 is demanded there. Call histories are at most 10 calls on one object; returned matrices are not mutated "
+              "between calls (the documentation does not promise independent results). Finds violations, does not prove absence.")
 DESIGN_REF = "DESIGN.md section 4, C32"
 ASSUMPTIONS = [
     "reference vectors are unit coordinate axes (all callers in porepy use [0,0,1], [0,1,0] or [1,0,0])",
@@ -66,8 +73,10 @@ ASSUMPTIONS = [
     "grids have cell aspect ratio <= 6 (map_grid detects the active dimensions with a relative tolerance 1e-5)",
 ]
 
-FNS = ["rotation_matrix", "plane_normal", "plane_pts", "compute_normal", "line", "points_to_line", "map_grid", "tnp"]
+FNS = ["rotation_matrix", "plane_normal", "plane_pts", "compute_normal", "line", "points_to_line", "map_grid", "tnp",
+       "tnp_history"]
 REQUIRED = {f: 0.05 for f in FNS}
+REQUIRED.update({"tnp-history-both-forms-same-count": 0.02, "tnp-history-repeated-call": 0.02})
 REQUIRED.update({"dir-int": 0.05, "dir-axis": 0.02, "dir-par": 0.01, "dir-anti": 0.01, "dir-near-par": 0.02,
                  "dir-near-anti": 0.02, "dir-sub": 0.01, "cloud-leading-collinear": 0.03, "tnp-2d": 0.02,
                  "tnp-3d": 0.04, "grid-cart2": 0.01, "grid-tri2": 0.01, "grid-cart1": 0.01})
@@ -179,6 +188,22 @@ def _spec(draw):
         dim = draw(st.sampled_from([2, 3, 3]))
         s.update(dim=dim, normals=draw(st.lists(_direction(dim), min_size=1, max_size=5)),
                  num=draw(st.sampled_from([None, None, 1, 2, 3])))
+    elif fn == "tnp_history":
+        dim = draw(st.sampled_from([2, 3, 3]))
+        normals = draw(st.lists(_direction(dim), min_size=1, max_size=5))
+        nv = len(normals)
+        one = st.tuples(st.sampled_from(["tn", "tn", "t", "n"]),
+                        st.one_of(st.none(), st.none(), st.integers(1, nv + 2), st.just(nv))).map(list)
+        calls = draw(st.lists(one, min_size=2, max_size=8))
+        if draw(st.booleans()):
+            # forced class: both argument forms with the same number of blocks on one object
+            a = [draw(st.sampled_from(["tn", "t", "n"])), nv]
+            b = [draw(st.sampled_from(["tn", "t", "n"])), None]
+            pair = [a, b] if draw(st.booleans()) else [b, a]
+            i = draw(st.integers(0, len(calls)))
+            j = draw(st.integers(i, len(calls)))
+            calls = calls[:i] + [pair[0]] + calls[i:j] + [pair[1]] + calls[j:]
+        s.update(dim=dim, normals=normals, calls=calls)
     return s
 
 
@@ -508,9 +533,84 @@ def check(s):
         require_close(np.vstack([Pt[k * (dim - 1):(k + 1) * (dim - 1)] for k in range(m)] + [Pn]),
                       np.vstack([P[[i for i in range(dim * m) if i % dim != dim - 1]], P[dim - 1::dim]]),
                       "tnp-restrictions", rtol=0, atol=0, what="restrictions vs rows of the full projection")
+    elif fn == "tnp_history":
+        # one object, a sequence of calls in both argument forms; the full per-block oracle after every call
+        dim = s["dim"]
+        labels.append(f"tnp-{dim}d")
+        vecs, hats, tol = [], [], TOL
+        for d in s["normals"]:
+            v, vh, lab, tl = _dir_vector(d, dim)
+            vecs.append(v)
+            hats.append(vh)
+            tol = max(tol, TOL_NEAR if lab == "dir-sub" else TOL)
+        N = np.array(vecs).T
+        H = np.array(hats).T
+        nv = N.shape[1]
+        proj = pp.TangentialNormalProjection(N.copy())
+        distinct = nv >= 2 and any(float(np.abs(H[:, k] - H[:, 0]).max()) > 1e-6 for k in range(1, nv))
+        forms = {(num is None) for _, num in s["calls"] if num is None or num == nv}
+        if len(forms) == 2 and distinct:
+            labels.append("tnp-history-both-forms-same-count")
+        if len({(m_, num) for m_, num in s["calls"]}) < len(s["calls"]):
+            labels.append("tnp-history-repeated-call")
+        labels.append(f"tnp-history-len{min(len(s['calls']), 6)}")
+        nontrivial = distinct
+        for step, (meth, num) in enumerate(s["calls"]):
+            _check_tnp_call(proj, H, dim, meth, num, tol, f"call {step} {meth}({num}) of {s['calls']}")
+        require_close(proj.normals, H, "tnp-normals", rtol=0, atol=1e-12, what="stored unit normals after the calls")
     else:
         raise HarnessError(f"unknown fn {fn}")
     return {"labels": labels, "nontrivial": nontrivial}
+
+
+def _check_tnp_call(proj, H, dim, meth, num, tol, where):
+    """Independent oracle for one call of project_tangential_normal ("tn"), project_tangential ("t") or
+    project_normal ("n"): num=None -> block k belongs to normal k, integer num -> every block to normal 0."""
+    nv = H.shape[1]
+    m = nv if num is None else num
+    src = list(range(nv)) if num is None else [0] * num
+    E = np.zeros(dim)
+    E[-1] = 1.0
+    if meth == "tn":
+        P = proj.project_tangential_normal(num)
+        require(P.shape == (dim * m, dim * m), "tnp-shape", f"{where}: {P.shape}")
+        P = P.toarray()
+        mask = np.kron(np.eye(m), np.ones((dim, dim))) > 0
+        require(bool(np.all(np.isfinite(P))) and bool(np.all(P[~mask] == 0)), "tnp-block-structure",
+                f"{where}: non-finite entries or non-zero outside the diagonal blocks")
+        for k in range(m):
+            B = P[dim * k: dim * (k + 1), dim * k: dim * (k + 1)]
+            nh = H[:, src[k]]
+            require_close(B @ B.T, np.eye(dim), "tnp-orthogonal", rtol=0, atol=tol, what=f"{where}, block {k}: B B^T vs I")
+            det = float(np.linalg.det(B))
+            require_close(det if dim == 3 else abs(det), 1.0, "tnp-det", rtol=0, atol=tol, what=f"{where}, block {k}: det")
+            require_close(B @ nh, E, "tnp-image", rtol=0, atol=tol,
+                          what=f"{where}, block {k}: B n_{src[k]} vs e_last")
+    elif meth == "n":
+        Pn = proj.project_normal(num)
+        require(Pn.shape == (m, dim * m), "tnp-restricted-shape", f"{where}: {Pn.shape}")
+        expn = np.zeros((m, dim * m))
+        for k in range(m):
+            expn[k, dim * k: dim * (k + 1)] = H[:, src[k]]
+        require_close(Pn.toarray(), expn, "tnp-project-normal", rtol=0, atol=tol,
+                      what=f"{where}: project_normal vs rows of unit normals")
+    else:
+        Pt = proj.project_tangential(num)
+        require(Pt.shape == (m * (dim - 1), dim * m), "tnp-restricted-shape", f"{where}: {Pt.shape}")
+        Pt = Pt.toarray()
+        mask = np.kron(np.eye(m), np.ones((dim - 1, dim))) > 0
+        require(bool(np.all(np.isfinite(Pt))) and bool(np.all(Pt[~mask] == 0)), "tnp-block-structure",
+                f"{where}: non-finite entries or non-zero outside the diagonal blocks")
+        for k in range(m):
+            T = Pt[(dim - 1) * k: (dim - 1) * (k + 1), dim * k: dim * (k + 1)]
+            nh = H[:, src[k]]
+            require_close(T @ T.T, np.eye(dim - 1), "tnp-orthogonal", rtol=0, atol=tol,
+                          what=f"{where}, block {k}: tangent rows orthonormal")
+            require_close(T @ nh, np.zeros(dim - 1), "tnp-tangential-kills-normal", rtol=0, atol=tol,
+                          what=f"{where}, block {k}: T n_{src[k]}")
+            if dim == 3:
+                require_close(np.linalg.det(np.vstack([T, nh])), 1.0, "tnp-det", rtol=0, atol=tol,
+                              what=f"{where}, block {k}: det [t1; t2; n]")
 
 
 def _relabel(lab, vhat, refv):
